@@ -117,16 +117,16 @@ static void handle(const Fields & q, Fields & a) {
 	if (op == "transclude") {
 		// fmt search_path source_path src
 		DString * d = d_string_new(q[4].c_str()); struct stack * m = stack_new(0);
-		mmd_transclude_source(d, q[2].c_str(), q[3].c_str(), (short)L(q[1]), NULL, m);
+		mmd_transclude_source(d, dirarg(q[2]), q[3].c_str(), (short)L(q[1]), NULL, m);      // empty search path = NULL
 		std::string out(d->str, d->currentStringLength); if (strlen(d->str) != d->currentStringLength) out += "\x01LENGTH-MISMATCH";
 		d_string_free(d, true); a.push_back(out); a.push_back(manifest_str(m)); return;
 	}
 	if (op == "manifest") {
 		// family search_path source_path src
 		struct stack * m = NULL;
-		if (q[1] == "s") m = mmd_string_transclusion_manifest(q[4].c_str(), q[2].c_str(), q[3].c_str());
-		else if (q[1] == "d") { DString * d = d_string_new(q[4].c_str()); m = mmd_d_string_transclusion_manifest(d, q[2].c_str(), q[3].c_str()); d_string_free(d, true); }
-		else { mmd_engine * e = mmd_engine_create_with_string(q[4].c_str(), 0); m = mmd_engine_transclusion_manifest(e, q[2].c_str(), q[3].c_str()); mmd_engine_free(e, true); }
+		if (q[1] == "s") m = mmd_string_transclusion_manifest(q[4].c_str(), dirarg(q[2]), q[3].c_str());
+		else if (q[1] == "d") { DString * d = d_string_new(q[4].c_str()); m = mmd_d_string_transclusion_manifest(d, dirarg(q[2]), q[3].c_str()); d_string_free(d, true); }
+		else { mmd_engine * e = mmd_engine_create_with_string(q[4].c_str(), 0); m = mmd_engine_transclusion_manifest(e, dirarg(q[2]), q[3].c_str()); mmd_engine_free(e, true); }
 		a.push_back(manifest_str(m)); return;
 	}
 	if (op == "opml2text" || op == "itmz2text") {
